@@ -68,5 +68,37 @@ def additive (score : Pid → Rat) (I : Inst) (init : List Pid) (order : List Pi
     .ok (init ++ pass I.cost (I.budget - costOf I.cost init)
       (sortLe (fun a b => ERat.le (density score I.cost b) (density score I.cost a)) ps))
 
+/-! ### `analytics=True` on the fast path: `GreedyWelfareAllocationDetails` -/
+
+/-- the same pass, recording for every project it meets whether it was taken and, if so, the budget left afterwards
+    (`mark_as_selected(project, remaining_budget)`; a project that is not taken keeps `discarded = True`, `remaining_budget = None`) -/
+def passTrace (cost : Pid → Rat) : Rat → List Pid → List (Pid × Option Rat)
+  | _, [] => []
+  | rem, p :: ps =>
+    if cost p ≤ rem then (p, some (rem - cost p)) :: passTrace cost (rem - cost p) ps
+    else (p, none) :: passTrace cost rem ps
+
+def lookupTrace (t : List (Pid × Option Rat)) (p : Pid) : Option Rat :=
+  match t.find? (fun e => e.1 == p) with
+  | some e => e.2
+  | none => none
+
+/-- one entry of `details.projects`: the project, its `score` (the density), and `remaining_budget` (`none` = discarded) -/
+structure ProjectDetails where
+  project : Pid
+  score : ERat
+  remaining : Option Rat
+
+/-- `selection.details.projects` of the resolute fast path: one entry per project outside the initial allocation, in the
+    order of the TIE-BREAKING rule (not in the order of the pass) -/
+def additiveDetails (score : Pid → Rat) (I : Inst) (init : List Pid) (order : List Pid → Except Err (List Pid)) :
+    Except Err (List ProjectDetails) :=
+  match order ((sortIds I.projects).filter (fun p => !init.contains p)) with
+  | .error e => .error e
+  | .ok ps =>
+    .ok (ps.map (fun p => ⟨p, density score I.cost p,
+      lookupTrace (passTrace I.cost (I.budget - costOf I.cost init)
+        (sortLe (fun a b => ERat.le (density score I.cost b) (density score I.cost a)) ps)) p⟩))
+
 end Greedy
 end Pabu
